@@ -76,7 +76,7 @@ type vMemStream struct {
 	gateAt    int
 	gateDelay int
 	gateDone  bool
-	stall     bool // at the end of buf, Read blocks forever instead of reporting EOF
+	stall     bool           // at the end of buf, Read blocks forever instead of reporting EOF
 	onWrite   func(p []byte) // observer of what the code under test writes (before it is stored)
 	slowWrite int            // native pacing only: every Write takes this many milliseconds (a slower stream)
 }
